@@ -207,11 +207,35 @@ class Rule(
     def assert_applies(self, evaluable: EvaluableArchitecture) -> None:
         # has to be checked before the alias conversion, which removes the "anything" marker
         self._assert_anything_only_used_with_should_not()
+        self._assert_rule_subjects_to_be_dropped_exist(evaluable)
         self._configuration = self._convert_aliases(self._configuration)
         self._assert_required_configuration_present()
 
         matcher = self._prepare_rule_matcher()
         matcher.match(evaluable)
+
+    def _assert_rule_subjects_to_be_dropped_exist(
+        self, evaluable: EvaluableArchitecture
+    ) -> None:
+        """The alias conversion drops rule subjects that are sub modules of other rule subjects, so they are never
+        looked up in the evaluable. A misspelt module name must not go unnoticed this way."""
+        configuration = self._configuration
+        if not configuration.rule_object_anything or not configuration.modules_to_check:
+            return
+
+        kept = self._get_modules_to_check_without_parent_and_submodule_combinations(
+            configuration
+        )
+        known_modules = set(evaluable.modules)
+        for module in configuration.modules_to_check:
+            if (
+                module not in kept  # type: ignore
+                and not module.identifier_is_regex
+                and module.identifier not in known_modules
+            ):
+                raise ImproperlyConfigured(
+                    f'Module "{module.identifier}" does not exist in the evaluable architecture.'
+                )
 
     def _prepare_rule_matcher(self) -> RuleMatcher:
         module_requirement = ModuleRequirement(
